@@ -216,7 +216,14 @@ func (ex *Exec) load(st *State, lv *LValue) Val {
 		t := selectN(raw, nav.idxs)
 		l := stripDims(rootLeaves[nav.lo+i], len(nav.idxs))
 		if lv.Kind != lvCell && len(l.Dims) == 0 {
-			t = ex.sc.define("ld", l.Sort, t)
+			hint := "ld"
+			switch l.Kind {
+			case lkSliceLen:
+				hint = "ldlen"
+			case lkSliceCap:
+				hint = "ldcap"
+			}
+			t = ex.sc.define(hint, l.Sort, t)
 			ex.sc.assert(scalarRange(l, t))
 		}
 		out.L[i] = t
